@@ -124,7 +124,15 @@ pub fn check_case(ctx: &mut Ctx, ps: &mut Parsers, case: &Case) {
         }
     }
     // 2. ScaledRecipe: default / scaled, then converted
-    let variants: [(&str, Option<f64>, Option<System>); 4] = [("default", None, None), ("scaled", Some(2.5), None), ("scaled+metric", Some(1.0 / 3.0), Some(System::Metric)), ("scaled+imperial", Some(3.0), Some(System::Imperial))];
+    let mut variants: Vec<(&str, Option<f64>, Option<System>)> = vec![("default", None, None), ("scaled", Some(2.5), None), ("scaled+metric", Some(1.0 / 3.0), Some(System::Metric)), ("scaled+imperial", Some(3.0), Some(System::Imperial))];
+    // case-specific factors ("arbitrary factors"): each alone and followed by a conversion to either system
+    if let Some(fs) = case.params.get("factors").and_then(|v| v.as_array()) {
+        for f in fs.iter().filter_map(|x| x.as_f64()) {
+            variants.push(("scaled", Some(f), None));
+            variants.push(("scaled+imperial", Some(f), Some(System::Imperial)));
+            variants.push(("scaled+metric", Some(f), Some(System::Metric)));
+        }
+    }
     for (label, f, sys) in variants {
         let Ok(Some(rec)) = crate::core::guarded(|| parser.parse(&case.input).into_output()) else { return };
         let res = crate::core::guarded(|| -> Result<bool, (String, String)> {
@@ -138,6 +146,22 @@ pub fn check_case(ctx: &mut Ctx, ps: &mut Parsers, case: &Case) {
             if !scaled_finite(&s) {
                 return Ok(false);
             }
+            // what the run actually exercised: fractions with a recorded error, in particular errors below f64::EPSILON
+            for q in s.ingredients.iter().filter_map(|i| i.quantity.as_ref()) {
+                let nums: Vec<&Number> = match q.value() {
+                    Value::Number(n) => vec![n],
+                    Value::Range { start, end } => vec![start, end],
+                    Value::Text(_) => vec![],
+                };
+                for n in nums {
+                    match n {
+                        Number::Fraction { err, .. } if *err != 0.0 && err.abs() < f64::EPSILON => TINY.with(|t| t.set(t.get() + 1)),
+                        Number::Fraction { err, .. } if *err != 0.0 => FRAC_ERR.with(|t| t.set(t.get() + 1)),
+                        Number::Regular(x) if x.abs() >= 9.2e18 => HUGE.with(|t| t.set(t.get() + 1)),
+                        _ => {}
+                    }
+                }
+            }
             let s1 = serde_json::to_string(&s).map_err(|e| ("serialize_failed".to_string(), e.to_string()))?;
             let back: ScaledRecipe = serde_json::from_str(&s1).map_err(|e| ("deserialize_failed".to_string(), format!("{e}; json {}", &s1[..s1.len().min(300)])))?;
             // no PartialEq for the Scaled payload: compare the PartialEq parts field-wise
@@ -145,7 +169,13 @@ pub fn check_case(ctx: &mut Ctx, ps: &mut Parsers, case: &Case) {
                 let a = serde_json::to_value(&s).unwrap();
                 let b = serde_json::to_value(&back).unwrap();
                 let mut p = String::new();
-                let d = g::json_diff(&a, &b, &mut p).map(|d| format!("at {}: {} vs {}", d.0, d.1, d.2)).unwrap_or_else(|| "typed difference".into());
+                let d = g::json_diff(&a, &b, &mut p).map(|d| format!("at {}: {} vs {}", d.0, d.1, d.2)).unwrap_or_else(|| {
+                    // the JSON images agree (the serialization itself lost something): show the first part that differs
+                    let first = s.ingredients.iter().zip(&back.ingredients).find(|(x, y)| x != y).map(|(x, y)| format!("ingredient {:?} vs {:?}", x.quantity, y.quantity));
+                    let first = first.or_else(|| s.cookware.iter().zip(&back.cookware).find(|(x, y)| x != y).map(|(x, y)| format!("cookware {:?} vs {:?}", x.quantity, y.quantity)));
+                    let first = first.or_else(|| s.timers.iter().zip(&back.timers).find(|(x, y)| x != y).map(|(x, y)| format!("timer {:?} vs {:?}", x.quantity, y.quantity)));
+                    format!("JSON images equal but the values differ: {}", first.unwrap_or_else(|| "metadata / sections / inline quantities".into()))
+                });
                 return Err(("roundtrip_not_equal".into(), d));
             }
             if back.is_default_scaled() != s.is_default_scaled() {
@@ -165,8 +195,59 @@ pub fn check_case(ctx: &mut Ctx, ps: &mut Parsers, case: &Case) {
             Ok(Ok(false)) => ctx.count("non_finite_numbers_not_judged"),
         }
     }
+    for (cell, name) in [(&TINY, "scaled_fractions_with_error_below_epsilon"), (&FRAC_ERR, "scaled_fractions_with_error"), (&HUGE, "scaled_numbers_above_2^63")] {
+        let n = cell.with(|t| t.replace(0));
+        if n > 0 {
+            ctx.count_n(name, n);
+        }
+    }
     if ctx.evals % 4000 == 1 {
         ctx.sample(json!({"input": case.input, "ext": case.ext, "valid": valid}));
+    }
+}
+
+thread_local! {
+    static TINY: std::cell::Cell<u64> = const { std::cell::Cell::new(0) };
+    static FRAC_ERR: std::cell::Cell<u64> = const { std::cell::Cell::new(0) };
+    static HUGE: std::cell::Cell<u64> = const { std::cell::Cell::new(0) };
+}
+
+/// numeric corner family: values and factors chosen so that scaled amounts land a few ulp from a fraction the
+/// imperial units accept (tiny recorded errors), on huge integers (2^53, 2^63, 2^64, 10^19, 10^30, 10^300) and on tiny decimals
+fn numeric_family(ctx: &mut Ctx, ps: &mut Parsers) {
+    const VALUES: &[&str] = &[
+        "0.1", "0.2", "0.3", "0.7", "1.1", "0.05", "0.15", "2.2", "1", "3", "7", "0.35", "1/3", "2/3", "1 1/3", "1/7", "0.142857", "0.333", "0.3333333333333333",
+        "9007199254740993", "9223372036854775807", "9223372036854775808", "18446744073709551616", "10000000000000000000", "4000000000",
+        "1000000000000000000000000000000", "0.000000000000000000001", "123456789.123456789",
+    ];
+    const UNITS: &[&str] = &["cup", "tsp", "tbsp", "oz", "lb", "fl oz", "pint", "g", "kg", "ml", "l", "grains", ""];
+    let big300 = format!("1{}", "0".repeat(300));
+    let n = ctx.budget(3_000, 300_000);
+    let all = Extensions::all().bits();
+    for _ in 0..n {
+        let mut text = String::new();
+        let k = ctx.rng.range(1, 4);
+        for j in 0..k {
+            let v = if ctx.rng.chance(1, 40) { big300.as_str() } else { *ctx.rng.pick(VALUES) };
+            let u = *ctx.rng.pick(UNITS);
+            let lock = if ctx.rng.chance(1, 8) { "=" } else { "" };
+            if ctx.rng.chance(1, 6) {
+                let v2 = *ctx.rng.pick(VALUES);
+                text.push_str(&format!("@i{j}{{{lock}{v}-{v2}%{u}}} "));
+            } else if u.is_empty() {
+                text.push_str(&format!("@i{j}{{{lock}{v}}} "));
+            } else {
+                text.push_str(&format!("@i{j}{{{lock}{v}%{u}}} "));
+            }
+        }
+        text.push_str(&format!("#p{{{}}} ~{{{}%min}}", ctx.rng.pick(VALUES), ctx.rng.pick(VALUES)));
+        if ctx.rng.chance(1, 3) {
+            text = format!(">> servings: {}\n{text}", ctx.rng.pick(&["3", "7", "3|6", "12"]));
+        }
+        let (p, q) = (ctx.rng.range(1, 12) as f64, ctx.rng.range(1, 12) as f64);
+        let factors = json!([p / q, *ctx.rng.pick(&[10.0 / 3.0, 1.0 / 7.0, 0.1, 1e-6, 1e6, 4e9, 1e15]), ctx.rng.log_uniform(1e-3, 1e3)]);
+        check_case(ctx, ps, &Case::new("numeric", text, all, "bundled").with(json!({"factors": factors})));
+        ctx.count("inputs_numeric_corners");
     }
 }
 
@@ -197,6 +278,7 @@ pub fn run(ctx: &mut Ctx) {
             }
         }
     }
+    numeric_family(ctx, &mut ps);
     let n = ctx.budget(8_000, 1_500_000);
     for i in 0..n {
         match i % 4 {
